@@ -325,7 +325,48 @@ func runC07(c *Ctx) {
 			}
 		}
 	}
-	c.Rep.Rule = "ready filtered subscriptions / filtered clones below a real (ready, quiet) controller through the public API with barriers: every ordered pair of a 7-member filter family (accept-all, accept-none, two overlapping label filters, a negation, a disjunction, a non-comparable FN), each rebuilt so that Equals is exercised on distinct values, then a third Refilter (back to the first filter or another member) and a repeated one; x all parent contents over 2 keys x {absent, unlabelled, label a, label b} (quick: a quarter of the triples). Per Refilter: events delivered between barriers and cache vs the extracted fs_step model (Delete exactly for cached objects the new filter rejects, Create exactly for parent objects newly accepted, nothing for an equal filter), Ready, filtered parent content. Non-trivial = scenario in which some Refilter emitted events."
+	// for-filter nodes (the joins' building block): first filter, another, back
+	// to the constructor's accept-none filter, and on
+	for i1, f1 := range fam {
+		for i2, f2 := range fam {
+			if c.Quick() && (i1+i2)%2 != 0 {
+				continue
+			}
+			kind := []int{nDSub, nDClone}[(i1+i2)%2]
+			r := &fsubRun{seed: c.Seed + int64(runs), kind: kind, initial: contents[(3*i1+5*i2+7)%len(contents)],
+				ops: []fop{{kind: 1, f: rebuild(f1)}, {kind: 1, f: rebuild(f2)}, {kind: 1, f: &Filt{Tag: FAll}}, {kind: 1, f: rebuild(f1)}}}
+			if i1%2 == 0 {
+				// straight back to the accept-none filter after the first one
+				r.ops = []fop{{kind: 1, f: rebuild(f1)}, {kind: 1, f: &Filt{Tag: FAll}}, {kind: 1, f: rebuild(f2)}, {kind: 1, f: rebuild(f1)}}
+			}
+			runFsub(c, r)
+			runs++
+			what := fmt.Sprintf("for-filter node: filters %d, %d, accept-none, %d", i1, i2, i1)
+			fsubReport(c, r, what)
+			if r.events > 0 {
+				c.DistinctCase(what)
+			}
+		}
+	}
+	// a Refilter issued before the parent is ready, then back to the constructor's filter
+	for i0, f0 := range fam {
+		for i1, f1 := range fam {
+			if i0 == i1 || (c.Quick() && (i0+i1)%2 != 0) {
+				continue
+			}
+			kind := []int{nFSub, nFClone}[(i0+i1)%2]
+			r := &fsubRun{seed: c.Seed + int64(runs), kind: kind, init: f0, gated: true, initial: contents[(3*i0+5*i1+11)%len(contents)],
+				ops: []fop{{kind: 1, f: rebuild(f1)}, {kind: 0}, {kind: 1, f: rebuild(f0)}, {kind: 1, f: rebuild(f1)}}}
+			runFsub(c, r)
+			runs++
+			what := fmt.Sprintf("Refilter(%d) before the parent is ready, then back to the constructor's filter %d", i1, i0)
+			fsubReport(c, r, what)
+			if r.events > 0 {
+				c.DistinctCase(what)
+			}
+		}
+	}
+	c.Rep.Rule = "ready filtered subscriptions / filtered clones below a real (ready, quiet) controller through the public API with barriers: every ordered pair of a 7-member filter family (accept-all, accept-none, two overlapping label filters, a negation, a disjunction, a non-comparable FN), each rebuilt so that Equals is exercised on distinct values, then a third Refilter (back to the first filter or another member) and a repeated one; x all parent contents over 2 keys x {absent, unlabelled, label a, label b} (quick: a quarter of the triples). Plus: for-filter nodes taken through first filter / another / back to accept-none / first again, and immediate nodes refiltered before their (gated) parent is ready and then back to the constructor's filter. Per Refilter: events delivered between barriers and cache vs the extracted fs_step model (Delete exactly for cached objects the new filter rejects, Create exactly for parent objects newly accepted, nothing for an equal filter), Ready, filtered parent content. Non-trivial = scenario in which some Refilter emitted events."
 	c.Rep.Stats["runs"] = runs
 }
 
@@ -419,7 +460,7 @@ func runC08(c *Ctx) {
 				if order == 1 {
 					ops = []fop{{kind: 1, f: rebuild(f)}, {kind: 0}}
 				}
-				ops = append(ops, fop{kind: 2, ns: 1, nm: 1, lab: 2}, fop{kind: 1, f: rebuild(fam[(fi+2)%len(fam)])})
+				ops = append(ops, fop{kind: 2, ns: 2, nm: 3, lab: 1}, fop{kind: 1, f: rebuild(fam[(fi+2)%len(fam)])}, fop{kind: 1, f: &Filt{Tag: FAll}}, fop{kind: 1, f: rebuild(f)})
 				r := &fsubRun{seed: c.Seed + int64(runs), kind: kind, gated: true, spacers: fi % 2, ops: ops,
 					initial: []fop{{kind: 2, ns: 1, nm: 1, lab: 1}, {kind: 2, ns: 1, nm: 2, lab: 0}}}
 				runFsub(c, r)
